@@ -40,7 +40,7 @@ def sh(cmd, cwd=None, env=None, timeout=3600, inp=None):
 
 
 class Stream:
-    def __init__(self, name, drv, sub, nontrivial=None, descr="", prepare=None, env=None, cmd=None, fields=None, binary="hrun", select=None):
+    def __init__(self, name, drv, sub, nontrivial=None, descr="", prepare=None, env=None, cmd=None, fields=None, binary="hrun", select=None, vacuous=None):
         self.name = name          # stream name
         self.drv = drv            # extracted generator: coq/gen_<drv>.ml -> build/modeldrv_<drv>
         self.sub = sub            # hrun sub-command
@@ -52,6 +52,7 @@ class Stream:
         self.fields = fields      # optional projection: keep only these `key=value` items (separated by ';')
         self.binary = binary      # which harness binary runs the stream (build/<binary>)
         self.select = select      # optional predicate on the tag string: cases it rejects are not part of this stream
+        self.vacuous = vacuous    # optional predicate (tags, projected observation): the case is outside the property's scope on this run (counted, not judged)
 
 
 class Check:
@@ -270,6 +271,7 @@ def main(check, argv):
     tool_errs = build_tools(check.streams)
 
     evaluations = 0
+    out_of_scope = 0
     nontrivial = set()
     samples = []
     distribution = {}
@@ -296,6 +298,9 @@ def main(check, argv):
             for cid in r["order"]:
                 c = r["cases"][cid]
                 o = r["obs"].get(cid, "<missing>")
+                if st.vacuous and st.vacuous(c[1], o):
+                    out_of_scope += 1
+                    continue
                 evaluations += 1; n_here += 1
                 for t in c[1].split(","):
                     distribution[st.name + ":" + t] = distribution.get(st.name + ":" + t, 0) + 1
@@ -359,6 +364,8 @@ def main(check, argv):
         "known_finding_hits": {f["key"]: f["hits"] for f in findings},
         "exhaustive": False,
     }
+    if out_of_scope:
+        cov["out_of_scope_cases"] = out_of_scope
     if pre_notes:
         cov["regenerated"] = pre_notes
     if tier == "thorough" and not replay and proofs["build_ok"]:
